@@ -28,8 +28,11 @@ def run(tier, seed):
         raise MachineryError("model-level check (A) of MC_C03 did not pass: %s\n%s"
                              % (A["errors"][:3], A["raw_tail"][-1500:]))
     # (B) every transition of the (smaller) model, printed by TLC
-    dB = 3 if quick else 4
-    B = tlcrun.run_mc("C03/B", "MC_C03", cfg(dB, pfx, "all"), workers=1, timeout=3000, heap="8g")
+    # thorough: same depth with a fourth prefix that looks like a generated one (2.7 M transitions at
+    # depth 4 would mean 6 GB of recorded observations)
+    dB = 3
+    pfxB = pfx if quick else pfx + ["ex_1"]
+    B = tlcrun.run_mc("C03/B", "MC_C03", cfg(dB, pfxB, "all"), workers=1, timeout=3000, heap="8g")
     if B["errors"] or not B["complete"]:
         raise MachineryError("behaviour generation (B) failed: %s" % B["errors"][:3])
     behaviours = [(h, len(h)) for h in B["tr"]]
@@ -60,7 +63,7 @@ def run(tier, seed):
             "traces_validated_against_impl": R["traces"],
             "steps_validated": R["steps"],
             "exhaustive": True,
-            "bounds": {"A_calls": dA, "B_calls": dB, "prefixes": pfx, "ns_uris": 3, "locals": 2,
+            "bounds": {"A_calls": dA, "B_calls": dB, "prefixes": pfx, "B_prefixes": pfxB, "ns_uris": 3, "locals": 2,
                        "scopes": ["doc", "bun"], "walk_len": dS, "walks": len(walks),
                        "walk_prefixes": pfxS},
             "B_transitions_replayed": len(B["tr"]),
